@@ -12,7 +12,10 @@ Three parts:
   pattern obeys the escape grammar of the W3C recommendation, the one-facet schema loads in XSD 1.0
   and 1.1 mode, and every sampled XML string without line breaks that Python's ``re`` accepts is
   accepted by the facet; per meta-model, ``schema.xsd`` loads in both modes and the XML documents
-  the generated SDK writes for invariant-satisfying instances validate.
+  the generated SDK writes for invariant-satisfying instances validate.  Before the random models: the
+  enumerated boundary families of ``c14_models`` (list sizes and string lengths over
+  {0, 1, 2, 9, 10, 11, 99, 100}, values with 2-3 patterns) with designed valid instances whose
+  constrained values sit at the minimum, strictly between and at the maximum.
 """
 from __future__ import annotations
 
@@ -1213,11 +1216,14 @@ def judge_family(ctx: Ctx, fam: Any, b: Built, valid: bool, mutants: bool) -> No
                         if sbad is not None:
                             narrowed = True
                             ctx.hit(f"enumerated-valid-rejected={spec.label}/{single.kind}")
-                            small = _reduced_failure(ctx, fam, single, True)
+                            sig = "C13:valid-document-rejected:" + _reason_class(sbad[1])
+                            if _reason_class(sbad[1]) == "pattern" and c14_models.escaped_metacharacter_intersected(spec.patterns):
+                                sig += ":escaped-metacharacter-intersected"
+                            small = None if sig.endswith("-intersected") else _reduced_failure(ctx, fam, single, True)
                             ctx.fail(
                                 {"model": small[0] if small else b.source, "class": cname, "document": small[1] if small else sdoc, "designed": _designed(spec), "value_at": single.kind},
-                                f"the XSD {sbad[0]} schema rejects the SDK-written document of a valid instance ({spec.cls}.{spec.prop} {spec.kind} {spec.window()} at its {single.kind}): {sbad[1]}",
-                                "C13:valid-document-rejected:" + _reason_class(sbad[1]),
+                                f"the XSD {sbad[0]} schema rejects the SDK-written document of a valid instance ({spec.cls}.{spec.prop} {spec.kind} {spec.window()} {list(spec.patterns)} at its {single.kind}): {sbad[1]}",
+                                sig,
                             )
                 if not narrowed:
                     ctx.fail({"model": b.source, "class": cname, "document": doc, "value_at": var.kind},
@@ -1232,8 +1238,6 @@ def judge_family(ctx: Ctx, fam: Any, b: Built, valid: bool, mutants: bool) -> No
             if not base_ok[cname]:
                 ctx.hit("enumerated-base-document-not-valid")
         for spec in fam.specs:
-            if not base_ok[spec.cls]:
-                continue
             for var in c14_models.violations(fam, spec):
                 doc = _write(ctx, b, fam, var, False)
                 if doc is None:
@@ -1242,22 +1246,32 @@ def judge_family(ctx: Ctx, fam: Any, b: Built, valid: bool, mutants: bool) -> No
                 ctx.count((doc, var.kind), stream="mutant/" + stream + "/" + kind)
                 accepted = next((ver for ver in ("1.0", "1.1") if not validation_errors(b.schemas[ver], doc)), None)
                 if accepted is None:
-                    ctx.hit(f"enumerated-mutant-rejected={kind}/{spec.position}")
+                    # a rejection only says something if the unmutated document is valid
+                    ctx.hit(f"enumerated-mutant-rejected={kind}/{spec.position}" if base_ok[spec.cls] else "enumerated-mutant-rejected-like-its-base-document")
                     continue
                 ctx.hit("mutant-accepted=" + kind)
                 label = f"{var.kind}@{spec.prop}"
-                small = _reduced_failure(ctx, fam, var, False)
+                sig = "C14:mutant-accepted:" + kind
+                if "pattern" in kind and c14_models.escaped_metacharacter_intersected(spec.patterns):
+                    sig = "C14:mutant-accepted:pattern:escaped-metacharacter-intersected"
+                small = None if sig.endswith("-intersected") else _reduced_failure(ctx, fam, var, False)
                 ctx.fail(
-                    {"model": small[0] if small else b.source, "class": spec.cls, "document": small[1] if small else doc, "mutation": label, "sig": "C14:mutant-accepted:" + kind, "designed": _designed(spec)},
+                    {"model": small[0] if small else b.source, "class": spec.cls, "document": small[1] if small else doc, "mutation": label, "sig": sig, "designed": _designed(spec)},
                     f"the XSD {accepted} schema accepts the SDK-written document of an instance that breaks one constraint ({label}; {spec.cls}.{spec.prop} {spec.kind} {spec.window()} {list(spec.patterns)}, declared by {spec.sources})",
-                    "C14:mutant-accepted:" + kind,
+                    sig,
                 )
 
 
-def enumerated_stage(ctx: Ctx, valid: bool, mutants: bool) -> None:
+def enumerated_families(ctx: Ctx) -> Iterator[Any]:
+    """The enumerated families; the multi-pattern witnesses of corpus/C13 and corpus/C14 lead the ``escapes`` family."""
     from harness.props import c14_models
 
-    for fam in c14_models.enumerated(ctx.tier):
+    entries = [c for prop in ("C13", "C14") for c in corpus(prop) if "model_patterns" in c]
+    return c14_models.enumerated(ctx.tier, entries)
+
+
+def enumerated_stage(ctx: Ctx, valid: bool, mutants: bool) -> None:
+    for fam in enumerated_families(ctx):
         judge_family(ctx, fam, built_family(ctx, fam), valid, mutants)
 
 
